@@ -33,6 +33,8 @@ class C08(vlib.Check):
 
     def gen(self, rng, tier):
         thorough = tier == 'thorough'
+        # a soak of consecutive calls on one thread (results may not depend on how many calls went before)
+        yield 'soak 600'
         strs = class_strings(rng)
         # ---- substr at the limits
         for s in strs:
@@ -166,6 +168,8 @@ class C08(vlib.Check):
         sizes = {}
         for c in cases:
             t = c.split()
+            if t[0] == 'soak':
+                continue
             n = len(unhx(t[1]))
             k = str(n) if n in (0, 1, 15, 16, 17, 40) else ('2-14' if n < 15 else '18+')
             sizes[k] = sizes.get(k, 0) + 1
